@@ -909,6 +909,9 @@ def pollLoop (p : KParams) (scn : Scn) (hk : Hooks) : Nat → KSt → Nat → KS
             | none => s
             | some (name, empty) =>
               let s := { s with pendFinish := none }
+              -- `v.handler(v.err, std::move(v.ips))` threw: the exception leaves on_lookup() right
+              -- there, the rest of it (`if (empty) return; … wait_for_front()`) is not executed
+              if s.thrown then s else
               match s.rs.lookup name with
               | none => s          -- the resolver was destroyed by its own handler
               | some (_, r) =>
